@@ -2,6 +2,7 @@ package acmelib
 
 import (
 	"fmt"
+	"math"
 	"slices"
 	"strings"
 )
@@ -51,6 +52,15 @@ func newMultiplexerSignalFromBase(base *signal, groupCount, groupSize int) (*Mul
 
 		err.Err = ErrIsNegative
 		return nil, err
+	}
+
+	// the total size is the group size plus the bits of the selector (at most 63):
+	// it must be representable
+	if groupSize > math.MaxInt-64 {
+		return nil, &ArgumentError{
+			Name: "groupSize",
+			Err:  ErrTooBig,
+		}
 	}
 
 	groups := make([]*SignalLayout, groupCount)
